@@ -41,7 +41,6 @@ package core
 //@ immutable Entry Change Snapshot
 //@ ufunc ecount(e *Entry) int
 //@ func (*Entry).Count
-//@   opaque
 //@   deterministic
 //@   ensures result == ecount(e) && ecount(e) >= 0
 
